@@ -160,6 +160,9 @@ class Prop(common.PropertyCheck):
         # a log amplifier: after conversion to RFI the lower range limit is 1, not 0; the dimmest subpopulation is piled up there
         for nchx in (1, 2):
             yield dict(base_case, K=8, sizes=[450] * 8, ratio=3.2, nch=nchx, logamp=True, clust='first', seed=1000 + nchx)
+        # NumPy reductions as the statistic, several channels calibrated at once
+        yield dict(base_case, K=6, sizes=[450] * 6, nch=2, stat='np_median', seed=5000)
+        yield dict(base_case, K=7, sizes=[450] * 7, nch=3, stat='np_mean', seed=5001)
         # a blank population (manufacturer value 0) in a table that marks an unknown value with None
         yield dict(base_case, K=7, sizes=[450] * 7, nch=2, blank=True, unknown=[(1, 2)], seed=4000)
         yield dict(base_case, K=7, sizes=[450] * 7, nch=2, blank=True, unknown=[(0, 4), (1, 3)], seed=4001)
@@ -179,7 +182,8 @@ class Prop(common.PropertyCheck):
         K, nch = case['K'], case['nch']
         chans = tr['chans']
         clch = chans if case['clust'] == 'all' else None if case['clust'] == 'default' else [chans[0]]
-        statf = FlowCal.stats.median if case['stat'] == 'median' else FlowCal.stats.mean
+        # NumPy's own reductions are valid statistic functions too (each subpopulation's channel is handed over as a 1-D array)
+        statf = {'median': FlowCal.stats.median, 'mean': FlowCal.stats.mean, 'np_median': np.median, 'np_mean': np.mean}[case['stat']]
         out = {'K': K}
         rr = np.random.RandomState(case['seed'] % 1000)
         rename = rr.permutation(K)
